@@ -62,6 +62,19 @@ GENNS = {
     ],
 }
 GENNS_HPP = "#pragma once\n#include <string>\n#include <vector>\nint base(int x);\nnamespace inner { const std::string &tag(); void ids(std::vector<int> &v); int *arr(int n); }\n"
+# libraries with ONE feature each: a helper / include / declaration that only this function asks for must still be there
+LONELY = [
+    ("chararr", "int countTags(char **tags +intent(in))", "int countTags(char **tags);", ""),
+    ("strres", "std::string onlyResult()", "std::string onlyResult();", "#include <string>\n"),
+    ("cstrres", "const char *onlyCstr()", "const char *onlyCstr();", ""),
+    ("strvec", "void names(std::vector<std::string> &v +intent(in))", "void names(std::vector<std::string> &v);", "#include <string>\n#include <vector>\n"),
+    ("vecout", "void fillv(std::vector<double> &v +intent(out))", "void fillv(std::vector<double> &v);", "#include <vector>\n"),
+    ("boolp", "void flags(bool *f +intent(inout), bool *g +intent(out))", "void flags(bool *f, bool *g);", ""),
+    ("chout", "void getbuf(char *buf +intent(out)+charlen(20))", "void getbuf(char *buf);", ""),
+    ("intalloc", "int *mk(int n) +dimension(n)+deref(allocatable)", "int *mk(int n);", ""),
+    ("strio", "void twist(std::string &s +intent(inout))", "void twist(std::string &s);", "#include <string>\n"),
+]
+
 GEN_HPP = r'''#pragma once
 #include <string>
 #include <vector>
@@ -281,7 +294,10 @@ def run(ctx):
             ctx.traces += 1
     jobs = [("cxx_%d" % i, GEN, "cmp.hpp", GEN_HPP, o) for i, o in enumerate(gen_matrix(quick, ctx.rng))] + \
            [("c_%d" % i, GENC, "cmpc.h", GENC_H, o) for i, o in enumerate(gen_matrix(quick, ctx.rng)[: (4 if quick else 1000)])] + \
-           [("ns_%d" % i, GENNS, "nsl.hpp", GENNS_HPP, o) for i, o in enumerate([dict(), dict(F_CFI=True), dict(debug=True, F_flatten_namespace=True)])]
+           [("ns_%d" % i, GENNS, "nsl.hpp", GENNS_HPP, o) for i, o in enumerate([dict(), dict(F_CFI=True), dict(debug=True, F_flatten_namespace=True)])] + \
+           [("lone_%s_%d" % (nm, i), {"library": "lo" + nm, "cxx_header": "lo.hpp", "options": {"wrap_lua": False, "wrap_python": False},
+                                      "declarations": [{"decl": decl}]}, "lo.hpp", "#pragma once\n" + inc + proto + "\n", o)
+            for (nm, decl, proto, inc) in LONELY for i, o in enumerate([dict(), dict(F_CFI=True)] if not quick else [dict()])]
 
     def two(j):
         return j, build_and_compile(ctx, *j)
